@@ -10,23 +10,25 @@
   their folding identities are not yet proved (DESIGN.md §5 C01).
 -/
 import FqeVerif.Lemmas.Embed
+import FqeVerif.Lemmas.Car
 import FqeVerif.Model.Term
 namespace C01
 open Fock Model
 
-/-- CAR, `p ≠ q`: any two ladder operators anticommute on every basis state -/
-theorem C01_car_offdiag (d1 d2 : Bool) (p q n : Nat) (h : p ≠ q) :
-    (ladder2 d1 p d2 q n).map (fun x => (!x.1, x.2)) = ladder2 d2 q d1 p n :=
-  car_offdiag d1 d2 p q n h
+/-- CAR for distinct modes: any two Spec ladder operators anticommute on every determinant -/
+theorem C01_car_offdiag (d1 d2 : Bool) (m1 m2 a b : Nat) (h : m1 ≠ m2) :
+    (specLadder2 d1 m1 d2 m2 a b).map (fun x => (!x.1, x.2)) = specLadder2 d2 m2 d1 m1 a b :=
+  spec_car_offdiag d1 d2 m1 m2 a b h
 
-/-- CAR, `p = q`: `a_p a_p† + a_p† a_p = 1` -/
-theorem C01_car_diag (p n : Nat) :
-    (ladder2 false p true p n = some (false, n) ∧ ladder2 true p false p n = none) ∨
-    (ladder2 false p true p n = none ∧ ladder2 true p false p n = some (false, n)) :=
-  car_diag p n
+/-- CAR, same mode: `a_m a_m† + a_m† a_m = 1` -/
+theorem C01_car_diag (m a b : Nat) :
+    (specLadder2 false m true m a b = some (false, a, b) ∧ specLadder2 true m false m a b = none) ∨
+    (specLadder2 false m true m a b = none ∧ specLadder2 true m false m a b = some (false, a, b)) :=
+  spec_car_diag m a b
 
-/-- CAR: `a_p a_p = 0 = a_p† a_p†` -/
-theorem C01_car_square (d : Bool) (p n : Nat) : ladder2 d p d p n = none := car_square d p n
+/-- CAR: `a_m a_m = 0 = a_m† a_m†` -/
+theorem C01_car_square (d : Bool) (m a b : Nat) : specLadder2 d m d m a b = none :=
+  spec_car_square d m a b
 
 /-- re-express an FQE-convention result in Spec convention: multiply the sign by ι(source)·ι(target) -/
 def twist (norb a b : Nat) (r : Option (Bool × Nat × Nat)) : Option (Bool × Nat × Nat) :=
